@@ -320,9 +320,108 @@ fn check_literals() -> CaseResult {
     Ok(rep)
 }
 
+// ---------------------------------------------------------------------------------------------
+// "census": the safe constructors the types offer through the standard conversion traits. The set is found at
+// compile time (an inherent method that exists only when the trait bound holds shadows a trait method that says
+// "not offered"), so a constructor that is added later is met here without the harness naming it.
+// ---------------------------------------------------------------------------------------------
+
+struct Offers<T>(core::marker::PhantomData<T>);
+trait NotOffered {
+    fn via_default(&self) -> Option<Vec<u8>> {
+        None
+    }
+    fn via_from_vec(&self, _v: Vec<u8>) -> Option<Vec<u8>> {
+        None
+    }
+    fn via_from_string(&self, _v: String) -> Option<Vec<u8>> {
+        None
+    }
+    fn via_from_str_ref(&self, _v: &str) -> Option<Vec<u8>> {
+        None
+    }
+    fn via_from_bytes_ref(&self, _v: &[u8]) -> Option<Vec<u8>> {
+        None
+    }
+    fn via_from_iter(&self, _v: &[u8]) -> Option<Vec<u8>> {
+        None
+    }
+}
+impl<T> NotOffered for Offers<T> {}
+impl<T: Default + AsRef<UnixStr>> Offers<T> {
+    fn via_default(&self) -> Option<Vec<u8>> {
+        Some(raw_of(T::default().as_ref()))
+    }
+}
+impl<T: From<Vec<u8>> + AsRef<UnixStr>> Offers<T> {
+    fn via_from_vec(&self, v: Vec<u8>) -> Option<Vec<u8>> {
+        Some(raw_of(T::from(v).as_ref()))
+    }
+}
+impl<T: From<String> + AsRef<UnixStr>> Offers<T> {
+    fn via_from_string(&self, v: String) -> Option<Vec<u8>> {
+        Some(raw_of(T::from(v).as_ref()))
+    }
+}
+impl<T: for<'a> From<&'a str> + AsRef<UnixStr>> Offers<T> {
+    fn via_from_str_ref(&self, v: &str) -> Option<Vec<u8>> {
+        Some(raw_of(T::from(v).as_ref()))
+    }
+}
+impl<T: for<'a> From<&'a [u8]> + AsRef<UnixStr>> Offers<T> {
+    fn via_from_bytes_ref(&self, v: &[u8]) -> Option<Vec<u8>> {
+        Some(raw_of(T::from(v).as_ref()))
+    }
+}
+impl<T: FromIterator<u8> + AsRef<UnixStr>> Offers<T> {
+    fn via_from_iter(&self, v: &[u8]) -> Option<Vec<u8>> {
+        Some(raw_of(v.iter().copied().collect::<T>().as_ref()))
+    }
+}
+
+/// the bytes a UnixStr claims to consist of (pointer and length as the value reports them)
+fn raw_of(u: &UnixStr) -> Vec<u8> {
+    let n = u.len();
+    if n == 0 {
+        return Vec::new();
+    }
+    unsafe { core::slice::from_raw_parts(u.as_ptr(), n).to_vec() }
+}
+
+fn census_one(how: &str, input: &[u8], raw: Option<Vec<u8>>, rep: &mut CaseReport) -> Result<(), Failure> {
+    let Some(raw) = raw else { return Ok(()) };
+    rep.class(Box::leak(format!("offered:{how}").into_boxed_str()));
+    let ok = raw.last() == Some(&0) && !raw[..raw.len() - 1].contains(&0);
+    ensure!(ok, format!("{how}|unterminated-or-interior-nul|infallible constructor"), "{how} (an infallible, safe constructor) given {:?} produced raw bytes {:?}: not exactly one NUL, at the end", escape(input), escape(&raw));
+    Ok(())
+}
+
+fn check_census() -> CaseResult {
+    let mut rep = CaseReport::new();
+    let o = Offers::<UnixString>(core::marker::PhantomData);
+    let r = no_panic("UnixString::default", || o.via_default())?;
+    census_one("UnixString::default()", b"", r, &mut rep)?;
+    for input in [&b""[..], b"a", b"a/b", b"a\0b", b"\0", b"ab\0"] {
+        let r = no_panic("UnixString::from(Vec<u8>)", || o.via_from_vec(input.to_vec()))?;
+        census_one("UnixString::from(Vec<u8>)", input, r, &mut rep)?;
+        let r = no_panic("UnixString::from(&[u8])", || o.via_from_bytes_ref(input))?;
+        census_one("UnixString::from(&[u8])", input, r, &mut rep)?;
+        let r = no_panic("UnixString::from_iter(u8..)", || o.via_from_iter(input))?;
+        census_one("UnixString::from_iter(bytes)", input, r, &mut rep)?;
+        let st = String::from_utf8(input.to_vec()).unwrap();
+        let r = no_panic("UnixString::from(String)", || o.via_from_string(st.clone()))?;
+        census_one("UnixString::from(String)", input, r, &mut rep)?;
+        let r = no_panic("UnixString::from(&str)", || o.via_from_str_ref(&st))?;
+        census_one("UnixString::from(&str)", input, r, &mut rep)?;
+    }
+    rep.class("census");
+    Ok(rep)
+}
+
 pub fn run(ctx: &Ctx) {
     if ctx.worker == 0 && !ctx.is_replay() {
         ctx.run_one("literals", &"unix_lit! fixed set", check_literals);
+        ctx.run_one("census", &"safe constructors offered through Default / From / FromIterator", check_census);
     }
     if !ctx.is_replay() {
         let strings = all_strings(&ALPHA, 5);
